@@ -245,3 +245,34 @@ package helpers
 //@     invariant -1 <= i && i < len(in)
 //@     invariant forall p int :: i < p && p < len(in) ==> !(first <= in[p] && in[p] <= last)
 //@     decreases i + 1
+
+// ---------------------------------------------------------------------------------------------
+// C20 / C03: ASCII case-insensitive search on raw strings (used by the string prefix filters)
+// ---------------------------------------------------------------------------------------------
+//@ spec func AFEqS(s string, i int, prefix string) bool = 0 <= i && i + len(prefix) <= len(s) && forall j int :: 0 <= j && j < len(prefix) ==> AsciiFold(s[i+j]) == AsciiFold(prefix[j])
+
+// first byte of s that equals ch up to ASCII case, or -1
+//@ func indexASCIIByteIgnoreCase(s string, ch byte) (r int)
+//@   props C20 C03
+//@   ensures[range] -1 <= r && r < len(s)
+//@   ensures[hit]   r >= 0 ==> AsciiFold(s[r]) == AsciiFold(ch)
+//@   ensures[first] forall k int :: 0 <= k && k < len(s) && (r < 0 || k < r) ==> AsciiFold(s[k]) != AsciiFold(ch)
+
+//@ func EqualStringIgnoreCaseASCII(s string, prefix string) (b bool)
+//@   props C20 C03
+//@   ensures b == AFEqS(s, 0, prefix)
+//@   loop 0:
+//@     invariant 0 <= i && i <= len(prefix) && len(prefix) <= len(s)
+//@     invariant forall j int :: 0 <= j && j < i ==> AsciiFold(s[j]) == AsciiFold(prefix[j])
+//@     decreases len(prefix) - i
+
+// first offset at which prefix occurs in s up to ASCII case, or -1
+//@ func IndexStringIgnoreCaseASCII(s string, prefix string) (r int)
+//@   props C20 C03
+//@   ensures[empty] len(prefix) == 0 ==> r == 0
+//@   ensures[hit]   r >= 0 && len(prefix) > 0 ==> AFEqS(s, r, prefix)
+//@   ensures[first] len(prefix) > 0 ==> forall k int :: 0 <= k && (r < 0 || k < r) ==> !AFEqS(s, k, prefix)
+//@   loop 0:
+//@     invariant 0 <= start && len(prefix) > 0 && end == len(s) - len(prefix)
+//@     invariant forall k int :: 0 <= k && k < start ==> !AFEqS(s, k, prefix)
+//@     decreases end - start + 1
